@@ -641,6 +641,23 @@ def region_always_errs(body, blocks):
     return True
 
 
+def is_failure_term(t):
+    """The term denotes an Err(..) / None-as-failure result: an Err aggregate, a value known to be the Err variant, the early
+    return of `?`."""
+    if t[0] == "through" and t[1] == "Err":
+        return True
+    if t[0] == "agg" and t[1] == "std::result::Result::Err":
+        return True
+    return False
+
+
+def results_avoiding_edge(body, lib, edge):
+    """Provenance of the function's result over the paths that do not take `edge` (e.g. the success edge of a fallible call:
+    what is returned when it failed)."""
+    feas = reach_avoiding(body, 0, avoid_edges=[edge])
+    return Origins(body, lib, only_blocks=feas).of_local(0)
+
+
 def sccs(nodes, succ):
     """Tarjan; succ: node -> iterable of nodes. Returns list of lists."""
     index = {}
